@@ -21,8 +21,9 @@
    Program operations:
      <<"drop", h>>        destroy handle h (it refers to the object)
      <<"copy", s, h>>     copy-construct h from the thread's own live handle s
-     <<"malloc", n>>      allocate n accounted bytes on the shared device
-     <<"free", n>>        release n accounted bytes                                        *)
+     <<"malloc", n>>      allocate n accounted bytes on the shared device (links a buffer into the
+                          device's ring of buffers, then updates the counter)
+     <<"free", n>>        release n accounted bytes (unlinks the buffer, then updates the counter) *)
 EXTENDS Integers, Sequences, FiniteSets, TLC, Json
 
 CONSTANTS Threads,        \* thread ids
@@ -39,8 +40,9 @@ VARIABLES pc,        \* pc[t] = <<index of current op, phase>>
           sawEmpty,  \* per thread: needsFree() result it read
           bytes,     \* bytesAllocated of the device
           tmp,       \* per thread: value read from bytesAllocated
+          children,  \* number of buffers linked into the shared device's ring of its buffers
           sched      \* history: the schedule (sequence of <<thread, action>>)
-vars == <<pc, ring, lock, alive, destroyed, touched, sawEmpty, bytes, tmp, sched>>
+vars == <<pc, ring, lock, alive, destroyed, touched, sawEmpty, bytes, tmp, children, sched>>
 
 Op(t) == Prog[t][pc[t][1]]
 Done(t) == pc[t][1] > Len(Prog[t])
@@ -53,6 +55,7 @@ Init == /\ pc = [t \in Threads |-> <<1, "start">>]
         /\ ring = InitRing /\ lock = "none" /\ alive = TRUE /\ destroyed = 0 /\ touched = FALSE
         /\ sawEmpty = [t \in Threads |-> FALSE]
         /\ bytes = 0 /\ tmp = [t \in Threads |-> 0]
+        /\ children = 0
         /\ sched = <<>>
 
 \* ---- drop: critical section (lock; unlink; unlock) ...
@@ -66,7 +69,7 @@ DropCS(t) ==
           /\ NextOp(t) /\ UNCHANGED sawEmpty
      ELSE /\ Goto(t, pc[t][1], "check") /\ UNCHANGED <<alive, destroyed, sawEmpty>>
   /\ Log(t, "dropCS")
-  /\ UNCHANGED <<lock, bytes, tmp>>
+  /\ UNCHANGED <<lock, bytes, tmp, children>>
 \* ... then, outside the lock, needsFree() ...
 DropCheck(t) ==
   /\ ~Done(t) /\ Op(t)[1] = "drop" /\ Phase(t) = "check"
@@ -74,7 +77,7 @@ DropCheck(t) ==
   /\ sawEmpty' = [sawEmpty EXCEPT ![t] = (ring = {})]
   /\ Goto(t, pc[t][1], "delete")
   /\ Log(t, "dropCheck")
-  /\ UNCHANGED <<ring, lock, alive, destroyed, bytes, tmp>>
+  /\ UNCHANGED <<ring, lock, alive, destroyed, bytes, tmp, children>>
 \* ... then delete
 DropDelete(t) ==
   /\ ~Done(t) /\ Op(t)[1] = "drop" /\ Phase(t) = "delete"
@@ -84,7 +87,7 @@ DropDelete(t) ==
      ELSE UNCHANGED <<destroyed, alive, touched>>
   /\ NextOp(t)
   /\ Log(t, "dropDelete")
-  /\ UNCHANGED <<ring, lock, sawEmpty, bytes, tmp>>
+  /\ UNCHANGED <<ring, lock, sawEmpty, bytes, tmp, children>>
 
 \* ---- copy: addRef under the lock
 CopyCS(t) ==
@@ -93,25 +96,34 @@ CopyCS(t) ==
   /\ ring' = ring \cup {Op(t)[3]}
   /\ NextOp(t)
   /\ Log(t, "copyCS")
-  /\ UNCHANGED <<lock, alive, destroyed, sawEmpty, bytes, tmp>>
+  /\ UNCHANGED <<lock, alive, destroyed, sawEmpty, bytes, tmp, children>>
 
 \* ---- accounting: bytesAllocated +/-= n
+\* malloc first links the new buffer into the device's ring of buffers (modeBuffer_t constructor ->
+\* modeDevice_t::addMemoryRef -> ring_t::addRef: one critical section of the ring mutex); free unlinks it
+\* (~modeBuffer_t -> removeMemoryRef).  The ring is shared by every thread that uses the device.
+ChildCS(t) ==
+  /\ ~Done(t) /\ Op(t)[1] \in {"malloc", "free"} /\ Phase(t) = "start" /\ lock = "none"
+  /\ children' = children + (IF Op(t)[1] = "malloc" THEN 1 ELSE -1)
+  /\ Goto(t, pc[t][1], "count")
+  /\ Log(t, "childCS")
+  /\ UNCHANGED <<ring, lock, alive, destroyed, touched, sawEmpty, bytes, tmp>>
 CountRead(t) ==
-  /\ ~Done(t) /\ Op(t)[1] \in {"malloc", "free"} /\ Phase(t) = "start"
+  /\ ~Done(t) /\ Op(t)[1] \in {"malloc", "free"} /\ Phase(t) = "count"
   /\ IF AtomicRelease
      THEN /\ bytes' = bytes + (IF Op(t)[1] = "malloc" THEN Op(t)[2] ELSE -Op(t)[2])
           /\ NextOp(t) /\ UNCHANGED tmp
      ELSE /\ tmp' = [tmp EXCEPT ![t] = bytes] /\ Goto(t, pc[t][1], "write") /\ UNCHANGED bytes
   /\ Log(t, "countRead")
-  /\ UNCHANGED <<ring, lock, alive, destroyed, touched, sawEmpty>>
+  /\ UNCHANGED <<ring, lock, alive, destroyed, touched, sawEmpty, children>>
 CountWrite(t) ==
   /\ ~Done(t) /\ Op(t)[1] \in {"malloc", "free"} /\ Phase(t) = "write"
   /\ bytes' = tmp[t] + (IF Op(t)[1] = "malloc" THEN Op(t)[2] ELSE -Op(t)[2])
   /\ NextOp(t)
   /\ Log(t, "countWrite")
-  /\ UNCHANGED <<ring, lock, alive, destroyed, touched, sawEmpty, tmp>>
+  /\ UNCHANGED <<ring, lock, alive, destroyed, touched, sawEmpty, tmp, children>>
 
-Next == \E t \in Threads : DropCS(t) \/ DropCheck(t) \/ DropDelete(t) \/ CopyCS(t) \/ CountRead(t) \/ CountWrite(t)
+Next == \E t \in Threads : DropCS(t) \/ DropCheck(t) \/ DropDelete(t) \/ CopyCS(t) \/ ChildCS(t) \/ CountRead(t) \/ CountWrite(t)
 Spec == Init /\ [][Next]_vars
 
 ---------------------------------------------------------------------------
@@ -124,13 +136,21 @@ NetBytes == LET RECURSIVE Sum(_, _)
                 Tot(S) == IF S = {} THEN 0 ELSE LET t == CHOOSE x \in S : TRUE IN Sum(Prog[t], 1) + Tot(S \ {t})
             IN Tot(Threads)
 
+NetChildren == LET RECURSIVE Cnt(_, _)
+                   Cnt(q, i) == IF i > Len(q) THEN 0
+                                ELSE (IF q[i][1] = "malloc" THEN 1 ELSE IF q[i][1] = "free" THEN -1 ELSE 0) + Cnt(q, i + 1)
+                   RECURSIVE TotC(_)
+                   TotC(S) == IF S = {} THEN 0 ELSE LET t == CHOOSE x \in S : TRUE IN Cnt(Prog[t], 1) + TotC(S \ {t})
+               IN TotC(Threads)
+
 NoDoubleFree      == destroyed <= 1
 NoUseAfterFree    == ~touched
 NoLeak            == (Quiescent /\ ring = {}) => destroyed = 1
 NoLostReference   == (ring # {}) => alive           \* a linked handle never refers to a destroyed object
 CounterExact      == Quiescent => bytes = NetBytes
+NoLostChild       == Quiescent => children = NetChildren   \* every buffer created on the device is in its ring
 
-View == <<pc, ring, lock, alive, destroyed, touched, sawEmpty, bytes, tmp>>
+View == <<pc, ring, lock, alive, destroyed, touched, sawEmpty, bytes, tmp, children>>
 \* schedule generation: one line per complete schedule
-EmitSchedule == Quiescent => PrintT(<<"B", ToJson([sched |-> sched, d |-> destroyed, b |-> bytes, a |-> alive, u |-> touched, ring |-> Cardinality(ring), net |-> NetBytes])>>)
+EmitSchedule == Quiescent => PrintT(<<"B", ToJson([sched |-> sched, d |-> destroyed, b |-> bytes, a |-> alive, u |-> touched, ring |-> Cardinality(ring), net |-> NetBytes, ch |-> children, netch |-> NetChildren])>>)
 =============================================================================
